@@ -363,7 +363,7 @@ func ruleExecConfinement(c *Ctx) {
 		return "", false
 	}
 	tabled := map[string]string{
-		"Oracle.newRequests": "feed for the off-chain oracle service, reconciled against storage in PostPersist (not consulted by execution)",
+		"Oracle.newRequests": "feed for the off-chain oracle service, its ids (not its contents) reconciled against storage in PostPersist; not consulted by execution",
 	}
 	var fns []*ssa.Function
 	for fn := range via {
